@@ -27,6 +27,8 @@ func (d *Driver) read() {
 	patterns := getNetconfPatterns()
 
 	for {
+		verifYield("ncread:top")
+
 		select {
 		case <-d.done:
 			return
@@ -35,6 +37,8 @@ func (d *Driver) read() {
 
 		rb, err := d.Channel.Read()
 		if err != nil {
+			verifYield("ncread:before-error-handoff")
+
 			select {
 			case d.errs <- err:
 			case <-d.done:
